@@ -125,7 +125,7 @@ func init() {
 	register(&Prop{
 		ID: "C02W", Cmd: "wfcheck", ReportAs: "C02",
 		Rule: "random grammars — 1/4 from the certified generator, 1/4 certified ones with a random subset of Memoize wrappers removed, 3/8 from the same term generator without the certificate filter (rules memoized with probability 0/40/85/100 %, root a reference, a Sentence or a random term), 1/8 from the template family — judged by the Go certificate (gen.go wellFormed, the filter every other stream generates its certified grammars with) and by the Lean check `wf` on the least certificate computed by the driver; verdict and nullable rules compared verbatim. Non-trivial = some rule has a left reference; distinct = distinct case text.",
-		Count: quickN(6000, 60000),
+		Count: quickN(6000, 240000),
 		Gen: func(rng *rand.Rand, tier string, i int) *Sexp {
 			var g genGrammar
 			switch i % 8 {
